@@ -69,6 +69,7 @@ def pcP (cfg : Cfg) (c : Core) (th : Th) : Prop :=
   | .s32 n ppos | .s33 n ppos | .s37 n ppos => ppos = c.pseq ∧ wcOK th n
   | .s34 n ppos | .s35 n ppos | .s36 n ppos | .s36w n ppos => ppos = c.pseq ∧ wcOK th n ∧ noRfc th
   | .s38 n ppos cpos => ppos = c.pseq ∧ ppos + n ≤ cpos + cfg.size ∧ cpos ≤ c.cseq ∧ c.gate ≤ cpos ∧ wcOK th n
+  | .s39 n ppos => ppos = c.pseq ∧ ppos + n ≤ c.cseq + cfg.size ∧ wcOK th n
   | .w41c n ppos j => ppos = c.pseq ∧ ppos + n ≤ c.cseq + cfg.size ∧ j ≤ n ∧ Filled cfg c.buf ppos j
   | .w42 n ppos => ppos = c.pseq ∧ ppos + n ≤ c.cseq + cfg.size ∧ Filled cfg c.buf ppos n
   | .c50 n ppos => ppos = c.pseq ∧ n ≤ th.filled
@@ -92,9 +93,9 @@ def pcC (cfg : Cfg) (c : Core) (th : Th) : Prop :=
   | .r64 _ cpos acc => cpos = c.cseq ∧ cpos + acc.length ≤ c.pseq ∧ acc.reverse = segment cfg.src cpos acc.length
   | .r65 _ cpos acc | .r66 _ cpos acc | .r67 _ cpos acc =>
     cpos + acc.length ≤ c.pseq ∧ acc.reverse = segment cfg.src cpos acc.length
-  | .r73 _ cpos | .r74 _ cpos | .r75 _ cpos | .r76 _ cpos | .r77 _ cpos | .r77w _ cpos | .r78 _ cpos => cpos = c.cseq
+  | .r73 _ cpos | .r74 _ cpos | .r75 _ cpos | .r75r _ cpos | .r76 _ cpos | .r77 _ cpos | .r77w _ cpos | .r78 _ cpos => cpos = c.cseq
   | .r79 _ => c.cseq < c.pseq
-  | .p81 _ _ cpos | .p82 _ _ cpos | .p83 _ _ cpos | .p84 _ _ cpos | .p85 _ _ cpos | .p86 _ _ cpos
+  | .p81 _ _ cpos | .p82 _ _ cpos | .p83 _ _ cpos | .p84 _ _ cpos | .p84r _ _ cpos | .p85 _ _ cpos | .p86 _ _ cpos
   | .p86w _ _ cpos | .p87 _ _ cpos => cpos = c.cseq
   | .p88 w n cpos ppos => cpos = c.cseq ∧ ppos ≤ c.pseq ∧ mustWait w n cpos ppos = false
   | .p89c _ cpos m _ j acc => cpos = c.cseq ∧ cpos + m ≤ c.pseq ∧ j ≤ m ∧ acc.reverse = segment cfg.src cpos j
@@ -372,7 +373,14 @@ theorem prod_frame (cfg : Cfg) (base : Nat) (sh sh' : Sh) (th th' : Th)
     rcases hs with ⟨h1, rfl, rfl⟩ | ⟨h1, rfl, rfl⟩
     · exact ⟨⟨rfl, hpc⟩, hsl, hf⟩
     · have := hg.gc
-      exact pInv_wfsOk cfg _ _ _ _ rfl (by simp only [Sh.core] at this ⊢; omega) hpc hsl hf
+      exact ⟨⟨rfl, by simp only [Sh.core] at this ⊢; omega, hpc⟩, hsl, hf⟩
+  case s39 n ppos =>
+    simp only [pcP] at hpc
+    obtain ⟨e1, e2, e3⟩ := hpc
+    tstep_norm
+    rcases hs with ⟨h1, rfl, rfl⟩ | ⟨h1, rfl, rfl⟩
+    · exact pInv_wfsErr cfg _ _ _ hsl hf
+    · exact pInv_wfsOk cfg _ _ _ _ e1 e2 e3 hsl hf
   case s33 n ppos =>
     simp only [pcP] at hpc
     tstep_norm
@@ -470,7 +478,7 @@ theorem prod_data (cfg : Cfg) (base : Nat) (sh sh' : Sh) (th th' : Th)
     obtain ⟨rfl, rfl⟩ := hs
     simp only [core_unlock]
     refine ⟨⟨hbs, hcp, hpcs, e3, hcells, hbase, hgot⟩, ?_, rfl, Nat.le_refl _, rfl⟩
-    exact pInv_wfsOk cfg _ _ _ _ e1 (by simp only [Sh.core]; omega) e5 hsl hf
+    exact ⟨⟨e1, by simp only [Sh.core]; omega, e5⟩, hsl, hf⟩
   case w41c n ppos j =>
     simp only [pcP] at hpc
     obtain ⟨e1, e2, e3, e4⟩ := hpc
@@ -677,6 +685,20 @@ theorem cons_frame (cfg : Cfg) (base : Nat) (sh sh' : Sh) (th th' : Th)
     · refine ⟨?_, hv, hpd⟩
       show sh.cseq < sh.pseq
       omega
+  case r75r n cpos =>
+    simp only [pcC] at hpc
+    tstep_norm
+    rcases hs with ⟨h1, rfl, rfl⟩ | ⟨h1, rfl, rfl⟩
+    · exact ⟨hpc, hv, hpd⟩
+    · refine ⟨?_, hv, hpd⟩
+      show sh.cseq < sh.pseq
+      omega
+  case p84r w n cpos =>
+    simp only [pcC] at hpc
+    tstep_norm
+    rcases hs with ⟨h1, rfl, rfl⟩ | ⟨h1, rfl, rfl⟩
+    · exact ⟨hpc, hv, hpd⟩
+    · exact ⟨⟨hpc, Nat.le_refl _, by simpa using h1⟩, hv, hpd⟩
   case r63c b cpos k j acc =>
     simp only [pcC] at hpc
     obtain ⟨e1, e2, e3, e4⟩ := hpc
